@@ -27,6 +27,8 @@ func checkC02(c *Ctx, r *Report) {
 	closeRule(c, r, "C02-close")
 	storeErrRule(c, r, "C02-store")
 	c02Extra(c, r)
+	r.Rule("C02-session", 1, "a deferral does not outlive the session (a failed session is followed by another on the same handler)")
+	prepareResetRule(c, r, "C02-session")
 
 	// ---- C02-dedup
 	r.Rule("C02-dedup", 1, "Reject only on the file-exists edge")
